@@ -39,6 +39,7 @@ SINGLE_PREFIX = {"shared/params": "components/parameters", "shared/more": "compo
                  "shared/sec": "components/x-sec", "items/m": "x-items/m", "items/missing": "x-items/missing"}
 SINGLE_PREFIX_20 = dict(SINGLE_PREFIX, **{"shared/params": "parameters", "shared/more": "parameters", "shared/bodies": "parameters",
                                             "shared/schemas": "definitions"})
+NUM_KEYS = ("1.0", "1.10", "1e3", ".5", "null", "~")  # OpCache.tla: FloatLike \cup NullLike
 UNQUOTED_VALUES = {"2020-01-01"}  # date-like scalar deliberately written plain in YAML
 
 
@@ -126,6 +127,8 @@ class _Builder:
         elif d["body"] != "none":
             props = {"on": {"type": "string"}, "no": {"type": "string"},
                      "v": {"type": "string", "format": "date", "default": "2020-01-01"}}
+            if d.get("numkeys"):  # key spelling: names a YAML 1.1 reader takes for floats / nulls, written plain as mapping keys
+                props.update({k: {"type": "string"} for k in NUM_KEYS})
             if d["rec"]:
                 node = {"type": "object", "maxProperties": 77,
                         "properties": dict(props, child={"$ref": self.ref("shared/schemas", "shared/schemas", "Node")})}
@@ -570,7 +573,7 @@ def case_failures(case: dict, obs: list[dict]) -> dict[int, list[str]]:
 
 ROUTE = {"iter": "iterate", "path": "path-method", "id": "operationId", "ref": "reference"}
 BASE = {"plK1": True, "plK2": False, "olK1": True, "olK2": False, "olK3": False, "orient": "pT", "pdepth": 1, "odepth": 0,
-        "pathRef": False, "body": "two", "rec": False, "cross": "none", "zpath": "/z", "collide": False, "ver": "3.0", "qcontent": False, "secgen": True, "oNoId": False, "mbroken": False, "sec": "hdr", "bad": "none"}
+        "pathRef": False, "body": "two", "rec": False, "cross": "none", "zpath": "/z", "collide": False, "ver": "3.0", "qcontent": False, "secgen": True, "oNoId": False, "mbroken": False, "numkeys": False, "sec": "hdr", "bad": "none"}
 
 
 def _rel(a: tuple, b: tuple) -> str:
@@ -801,12 +804,19 @@ def selftest(ctx: Ctx) -> bool:
     _root.append(ctx.path("docs"))
     d = {"plK1": True, "plK2": False, "olK1": True, "olK2": False, "olK3": False, "orient": "pT", "pdepth": 1, "odepth": 0,
          "pathRef": False, "body": "two", "rec": False, "cross": "none", "zpath": "/z", "collide": False, "ver": "3.0", "qcontent": False, "secgen": True, "oNoId": False, "mbroken": False,
-         "sec": "hdr", "bad": "paramref"}
+         "numkeys": False, "sec": "hdr", "bad": "paramref"}
     main = ensure_files(d, "yaml", "single")
     std = yaml.safe_load(open(main))
     post = std["paths"]["/m/{id}"]["post"]
     props = post["requestBody"]["content"]["application/json"]["schema"]["properties"]
     ok_yaml = 200 in post["responses"] and True in props and False in props and type(props["v"]["default"]).__name__ == "date"
+    nk = dict(d, bad="none", numkeys=True)
+    std_nk = yaml.safe_load(open(ensure_files(nk, "yaml", "single")))
+    nk_props = std_nk["paths"]["/m/{id}"]["post"]["requestBody"]["content"]["application/json"]["schema"]["properties"]
+    ok_yaml = ok_yaml and {1.0, 1.1, 0.5, None} <= set(nk_props) and not any(k in nk_props for k in NUM_KEYS if k != "1e3")
+    # ("1e3" is a float only for the YAML 1.2-style float resolver that schemathesis' own loader installs, not for plain PyYAML)
+    nk_json = json.load(open(ensure_files(nk, "json", "single")))
+    ok_yaml = ok_yaml and set(NUM_KEYS) <= set(nk_json["paths"]["/m/{id}"]["post"]["requestBody"]["content"]["application/json"]["schema"]["properties"])
     files_json = json.load(open(ensure_files(d, "json", "single")))
     ok_yaml = ok_yaml and "200" in files_json["paths"]["/m/{id}"]["post"]["responses"]
     lines: list[dict] = []
